@@ -149,9 +149,14 @@ def __parse_unit_string_to_list(unit_string: str) -> List[Union[str, List]]:
     raw_tokens_list = []  # The raw list of tokens
     tokens_list = []  # The final list of tokens
 
-    token_pattern = re.compile(r"[a-zA-Z]+(\^-?[0-9]+)?|/|\*|\(.*?\)")
+    # A token is a unit, optionally with an integer power or a bracketed fractional power such
+    # as "m^(1/2)", an operator, a bracket enclosed expression, or the "1" that stands for an
+    # empty numerator at the very beginning of a fraction such as "1/s"
+    power_pattern = r"\^-?[0-9]+|\^\(-?[0-9]+/[0-9]+\)"
+    token_pattern = re.compile(
+        r"^1(?=/)|[a-zA-Z]+({})?|/|\*|\(.*?\)".format(power_pattern))
     bracket_enclosed_expression_pattern = re.compile(r"\(.*?\)")
-    unit_with_exponent_pattern = re.compile(r"[a-zA-Z]+\^-?[0-9]+")
+    unit_with_exponent_pattern = re.compile(r"[a-zA-Z]+({})".format(power_pattern))
     operator_pattern = re.compile(r"[/*]")
 
     # Check if the input only consists of valid token strings
@@ -281,7 +286,7 @@ def __evaluate_unit_tree(tree: Expression) -> Dict[str, int]:
     units = OrderedDict()
     if isinstance(tree, Expression) and tree.operator == "^":
         # When a unit with an exponent is found, add it to the dictionary object
-        units[tree.left] = int(tree.right)
+        units[tree.left] = __power_str2num(tree.right)
     elif isinstance(tree, Expression) and tree.operator in ["*", "/"]:
         for unit, exponent in __evaluate_unit_tree(tree.left).items():
             units[unit] = exponent
@@ -289,7 +294,7 @@ def __evaluate_unit_tree(tree: Expression) -> Dict[str, int]:
             start_exponent_from = units[unit] if unit in units else 0
             plus_or_minus = 1 if tree.operator == "*" else -1
             units[unit] = start_exponent_from + plus_or_minus * exponent
-    else:  # just a string then count it
+    elif tree != "1":  # just a string then count it (a "1" is an empty numerator)
         units[tree] = 1
     return units
 
@@ -369,6 +374,13 @@ def __power_num2str(power) -> str:
     if fraction.denominator == 1:
         return "^{}".format(str(fraction.numerator))
     return "^({})".format(str(fraction))
+
+
+def __power_str2num(power: str):
+    """Find the power of a unit from its string, the inverse of __power_num2str"""
+    if power.startswith("("):
+        return float(Fraction(power[1:-1]))
+    return int(power)
 
 
 def __neg(units):
